@@ -197,6 +197,9 @@ func c09Koalabear(t *TraceWriter, r *Rng, tier string) {
 				v[i] = elem((i*3 + n) % 37)
 			}
 			res := make([]koalabear.Element, 1<<c.logDeg)
+			for i := range res {
+				res[i] = elem(i*7 + 3) // a destination that holds other values: the digest must not depend on them
+			}
 			emit("SIS.Hash", []any{c.logDeg, c.logBound, n}, func() any {
 				if err := s.Hash(v, res); err != nil {
 					return "err"
